@@ -125,8 +125,7 @@ class C09(core.Check):
                 # a liquidation order: MARKET, reduce-only, submitted and filled with no strategy call in between, price != cur
                 liq_orders = set()
                 for k, o in orders.items():
-                    if o['sym'] == sym and o['type'] == 'MARKET' and o['ro'] and o['cur'] is not None and o['filled'] == o['submitted'] \
-                            and abs(o['price'] - o['cur']) > 1e-9 and self.is_liq_order(tr, k):
+                    if o['sym'] == sym and k in tr.liq_orders:
                         liq_orders.add(k)
                 nliq += len(liq_orders)
                 state_at_unit_end = {}
